@@ -53,17 +53,15 @@ impl Layout {
         let mut pkgs = BTreeMap::new();
         for (dir, mut fs) in by_dir {
             fs.sort();
-            let mut name = None;
+            // a build system names a package after its directory (root = Main); what the files
+            // declare is the compiler's business to check
             let mut imports = BTreeSet::new();
             for f in &fs {
                 let text = String::from_utf8_lossy(&files[f]).to_string();
-                let (p, im) = header_names(&text);
-                if name.is_none() {
-                    name = p.or_else(|| if dir.is_empty() { Some("Main".to_string()) } else { None });
-                }
+                let (_p, im) = header_names(&text);
                 imports.extend(im);
             }
-            let name = name.unwrap_or_else(|| if dir.is_empty() { "Main".into() } else { dir.clone() });
+            let name = if dir.is_empty() { "Main".to_string() } else { dir.rsplit('/').next().unwrap_or(&dir).to_string() };
             pkgs.insert(name.clone(), PkgLayout { name, dir, files: fs, imports });
         }
         Layout { pkgs }
